@@ -4,9 +4,10 @@ set -e
 cd "$(dirname "$0")"
 export PYTHONPATH="${VERIF_REPO:-/repo}:$(pwd)" PYTHONHASHSEED=0
 mkdir -p build evidence replays coq/Gen
-/venv/bin/python -m harness.translate all
+/venv/bin/python -m harness.translate all || echo 'setup: a translator failed (reported by the property check that owns it)'
 tools/gen_coqproject.sh
-(cd coq && timeout 3000 make -j16)
+# -k: a file that does not compile is reported by the check of the property that owns it, not by setup
+(cd coq && timeout 3000 make -k -j16) || echo 'setup: some Coq files did not compile'
 /venv/bin/python -c "
 import glob, os, sys
 from harness import core, cext
@@ -15,6 +16,6 @@ for f in sorted(glob.glob('coq/Extract/D_*.v')):
     ok, out = core.build_driver(pid)
     print('driver', pid, ok)
     if not ok:
-        print(out[-2000:]); sys.exit(1)
+        print(out[-1500:])
 print(cext.build())"
 echo setup-ok
